@@ -116,6 +116,6 @@ claim("C20",
 
 claim("C05",
       "type-based lockset analysis (must-lockset dataflow per function, must/may entry locksets by fixpoint over the VTA call graph, handler entry locksets from the route census), guarded-by agreement per field incl. whole-struct copies, re-entrancy and lock-order (SCC) checks, protected-header leak check (static analysis)",
-      "Decides, for the serving structures named by the property (DNS server and its configuration, access manager, client registry and indexes, filter and its configuration, query log, statistics, DHCPv4 lease table): (G) every field that is written after start-up and has a documented guard is accessed only with that guard held (write mode for writes) unless every conflicting access shares some other lock; (X) no lock is acquired on a call chain that may already hold it, including read-after-read on an RWMutex; (O) the lock-order graph has no cycle through a lock of those structures; (L) a guarded slice/map that some writer changes in place is not returned as a raw header by a function that releases the lock. "
-      "These are the structural necessary conditions of 'no data race, no deadlock' over all schedules: a dropped lock, a read lock where a write is needed, an unlocked accessor on the request path, a recursive RLock or an inverted nesting is reported with the field/lock and function. Not decided: races on fields without a documented guard or mixed atomic/plain access, happens-before through channels/Once/goroutine start, instance-level aliasing (locks and fields are identified by type), third-party internals, panics in general, well-formedness and latency of responses. Three genuine deadlock hazards that need a cross-package API change are listed as known findings.",
+      "Decides, for the serving structures named by the property (DNS server and its configuration, access manager, client registry and indexes, filter and its configuration, query log, statistics, DHCPv4 lease table): (G) every field that is written after start-up and has a documented guard is accessed only with that guard held (write mode for writes) unless every conflicting access shares some other lock; (X) no lock is acquired on a call chain that may already hold it, including read-after-read on an RWMutex; (O) the lock-order graph has no cycle through a lock of those structures; (L) a guarded slice/map that some writer changes in place is not returned as a raw header by a function that releases the lock; (A) a field accessed through sync/atomic is accessed plainly (also inside a whole-struct copy) only where a common lock orders the two. "
+      "These are the structural necessary conditions of 'no data race, no deadlock' over all schedules: a dropped lock, a read lock where a write is needed, an unlocked accessor on the request path, a recursive RLock or an inverted nesting is reported with the field/lock and function. Not decided: races on fields without a documented guard, happens-before through channels/Once/goroutine start, instance-level aliasing (locks and fields are identified by type), third-party internals, panics in general, well-formedness and latency of responses. Three genuine deadlock hazards that need a cross-package API change are listed as known findings.",
       "DESIGN.md §5 C05")
